@@ -10,7 +10,7 @@ def main():
     if args and args[0].startswith("--rlimit="):
         rlimit = args.pop(0).split("=")[1]
     out = "/var/tmp/vt/raw.rs"
-    ex = extract.Extraction(os.environ.get("REPO", "/repo"))
+    ex = extract.Extraction(os.environ.get("REPO", "/repo"), prop=os.environ.get("PROP") or None)
     lib = extract.Library()
     if args:
         roots = [k for k in ex.functions if any(k.endswith(p) for p in args)]
